@@ -1,7 +1,7 @@
 (* CGLSFacts.v — concrete instances over Qc: the hypotheses of the generic
    theorems are satisfiable (numpy.abs is the identity on Hermitian squares),
-   and refutation witnesses (by vm_compute) for the statements that are FALSE
-   of the faithful model of the code as delivered (fixed = false). *)
+   a worked example, and (Section Legacy, documentation only) witnesses about
+   the code before the cgls repairs. *)
 From Coq Require Import QArith Qcanon.
 From PV Require Import Dict Vec Dot Mat QcInst GaussQc GaussField Check CG CGLS.
 Import ListNotations.
@@ -31,52 +31,44 @@ Proof. revert v; induction u as [|a u IH]; intros [|b v] H; simpl in H; try disc
 Lemma neqb_neq (a b : Qc) : Qc_eq_bool a b = false -> a <> b.
 Proof. intros H E; subst. unfold Qc_eq_bool in H. destruct (Qc_eq_dec b b); congruence. Qed.
 
-(* --- witness system: A = [[1]], y = [1], x0 = [1], damp = 2 (1 unknown) --- *)
+(* ================= Legacy (DOCUMENTATION ONLY) =================
+   The code before 4c3cad3 / a61e68b: setup used the UNSQUARED damp in
+   r = Op^H s - damp * x and in cost1[0]; finalize returned r1norm = kold.
+   These witnesses record why the three repairs were needed; nothing else
+   depends on them and Props/ does not export them. *)
+Section Legacy.
+Definition cgls_setup_legacy (n : nat) (A : list (list QcF)) (y : list QcF) (x0 : list QcF) (damp : QcF) : clst QcF :=
+  let s := vsub QcF y (mv QcF A x0) in
+  let r := vsub QcF (mvH QcF n A s) (vscale QcF damp x0) in
+  mkcl QcF x0 s r (mv QcF A r) r (absR (dot QcF r r)) (damp * damp)%Qc [dot QcF s s]
+       [(dot QcF s s + damp * absR (dot QcF x0 x0))%Qc] 0.
 Definition wA : list (list QcF) := [[qz 1]].
 Definition wy : list QcF := [qz 1].
 Definition wx0 : list QcF := [qz 1].
 Definition wd : QcF := qz 2.
 
-(* C09: with x0 <> 0 and damp not in {0,1} the setup residual is NOT the normal-equation residual *)
-Theorem cgls_setup_refuted :
-  exists (A : list (list QcF)) (y x0 : list QcF) (damp : QcF),
-    wfM QcF 1 A /\ length y = length A /\ length x0 = 1%nat /\
-    ~ cl_rinv QcF 1 A damp (cgls_setup QcF absR 1 A false y (Some x0) damp).
-Proof. exists wA, wy, wx0, wd. repeat split; [repeat constructor|]. unfold cl_rinv. apply neqb_vec_neq. vm_compute. reflexivity. Qed.
+Lemma legacy_setup_residual_wrong : ~ cl_rinv QcF 1 wA wd (cgls_setup_legacy 1 wA wy wx0 wd).
+Proof. unfold cl_rinv. apply neqb_vec_neq. vm_compute. reflexivity. Qed.
+Lemma legacy_misses_minimiser : forall k, (1 <= k <= 3)%nat ->
+  let x := cl_x QcF (cgls_iter QcF absR 1 wA k (cgls_setup_legacy 1 wA wy wx0 wd)) in
+  vsub QcF (mvH QcF 1 wA (vsub QcF wy (mv QcF wA x))) (vscale QcF (wd * wd)%Qc x) <> [0%Qc].
+Proof. intros k Hk. assert (E : k = 1%nat \/ k = 2%nat \/ k = 3%nat) by lia.
+  destruct E as [->|[->| ->]]; apply neqb_vec_neq; vm_compute; reflexivity. Qed.
+Lemma legacy_cost1_wrong :
+  let st := cgls_setup_legacy 1 wA wy wx0 wd in cgls_r2norm2 QcF st <> lsfun QcF wA wy wd (cl_x QcF st).
+Proof. apply neqb_neq. vm_compute. reflexivity. Qed.
+(* kold as r1norm: A = [[1];[1]], y = [1;3]: after one step x = 2, ||y - A x||^2 = 2, kold = 0 *)
+Lemma legacy_r1norm_wrong :
+  let st := cgls_iter QcF absR 1 [[qz 1]; [qz 1]] 1 (cgls_setup QcF absR 1 [[qz 1]; [qz 1]] [qz 1; qz 3] None 0%Qc) in
+  (cl_kold QcF st * cl_kold QcF st)%Qc <> lsres2 QcF [[qz 1]; [qz 1]] [qz 1; qz 3] (cl_x QcF st).
+Proof. apply neqb_neq. vm_compute. reflexivity. Qed.
+End Legacy.
 
-(* C09: ... and after n = 1 (and also 2, 3) iterations the iterate does not satisfy the normal equations
-   (A^H A + damp^2) x = A^H y, although CG on the normal equations solves them in 1 step *)
-Theorem cgls_minimiser_refuted :
-  exists (A : list (list QcF)) (y x0 : list QcF) (damp : QcF),
-    wfM QcF 1 A /\ length y = length A /\ length x0 = 1%nat /\
-    (forall k, (1 <= k <= 3)%nat ->
-       let x := cl_x QcF (cgls_iter QcF absR 1 A k (cgls_setup QcF absR 1 A false y (Some x0) damp)) in
-       vsub QcF (mvH QcF 1 A (vsub QcF y (mv QcF A x))) (vscale QcF (damp * damp)%Qc x) <> [0%Qc]) /\
-    (let x := cl_x QcF (cgls_iter QcF absR 1 A 1 (cgls_setup QcF absR 1 A true y (Some x0) damp)) in
-       vsub QcF (mvH QcF 1 A (vsub QcF y (mv QcF A x))) (vscale QcF (damp * damp)%Qc x) = [0%Qc]).
-Proof. exists wA, wy, wx0, wd. split; [repeat constructor|]. split; [reflexivity|]. split; [reflexivity|]. split.
-  - intros k Hk. assert (E : k = 1%nat \/ k = 2%nat \/ k = 3%nat) by lia.
-    destruct E as [->|[->| ->]]; apply neqb_vec_neq; vm_compute; reflexivity.
-  - apply eqb_vec_eq. vm_compute. reflexivity.
-Qed.
-
-(* C10: cost1[0] (and hence r2norm when no iteration is performed) is not J(x0) *)
-Theorem cgls_cost1_setup_refuted :
-  exists (A : list (list QcF)) (y x0 : list QcF) (damp : QcF),
-    wfM QcF 1 A /\ length y = length A /\ length x0 = 1%nat /\
-    let st := cgls_setup QcF absR 1 A false y (Some x0) damp in
-    cgls_r2norm2 QcF st <> lsfun QcF A y damp (cl_x QcF st).
-Proof. exists wA, wy, wx0, wd. repeat split; [repeat constructor|]. apply neqb_neq. vm_compute. reflexivity. Qed.
-
-(* C10: r1norm (= kold) is not ||y - A x|| : A = [[1];[1]], y = [1;3], no x0, no damping, one iteration:
-   x = 2, residual (-1, 1), ||.||^2 = 2, returned r1norm = 0 *)
-Theorem cgls_r1norm_refuted :
-  exists (A : list (list QcF)) (y : list QcF),
-    wfM QcF 1 A /\ length y = length A /\
-    let '(x, _, iiter, r1, _, _, _) := cgls_solve QcF absR gtR 1 A false y None 5 0%Qc 0%Qc in
-    iiter = 1%nat /\ (r1 * r1)%Qc <> lsres2 QcF A y x.
-Proof. exists [[qz 1]; [qz 1]], [qz 1; qz 3]. split; [repeat constructor|]. split; [reflexivity|].
-  vm_compute. split; [reflexivity|]. apply neqb_neq. vm_compute. reflexivity. Qed.
+(* the current model reaches the minimiser of the same 1-unknown system (x0 = 1, damp = 2) in one step *)
+Lemma cgls_minimiser_example :
+  let x := cl_x QcF (cgls_iter QcF absR 1 wA 1 (cgls_setup QcF absR 1 wA wy (Some wx0) wd)) in
+  vsub QcF (mvH QcF 1 wA (vsub QcF wy (mv QcF wA x))) (vscale QcF (wd * wd)%Qc x) = [0%Qc].
+Proof. apply eqb_vec_eq. vm_compute. reflexivity. Qed.
 
 (* non-vacuity of the hypotheses of the generic theorems: a concrete 3x2 system *)
 Definition eA : list (list QcF) := [[qz 2; qz 1]; [qz 1; qz 3]; [z0; qz 1]].
@@ -84,13 +76,12 @@ Definition ey : list QcF := [qz 1; qz 2; qz 3].
 Definition ed : QcF := q 1 2.
 Lemma example_hyps :
   wfM QcF 2 eA /\ length ey = length eA /\ conj QcF ed = ed /\ (forall v : list QcF, absR (dot QcF v v) = dot QcF v v) /\
-  x0_ok QcF 2 (Some [qz 1; qz (-1)]) /\ cgls_guard QcF true ed (Some [qz 1; qz (-1)]) /\ cgls_guard QcF false ed None /\
-  cgls_guard QcF false (qz 1) (Some [qz 1; qz (-1)]) /\
+  x0_ok QcF 2 (Some [qz 1; qz (-1)]) /\
   (* and the run is non-trivial: two iterations reach the exact minimiser *)
-  cl_kold QcF (cgls_iter QcF absR 2 eA 2 (cgls_setup QcF absR 2 eA true ey (Some [qz 1; qz (-1)]) ed)) = 0%Qc /\
-  cl_kold QcF (cgls_iter QcF absR 2 eA 1 (cgls_setup QcF absR 2 eA true ey (Some [qz 1; qz (-1)]) ed)) <> 0%Qc.
+  cl_kold QcF (cgls_iter QcF absR 2 eA 2 (cgls_setup QcF absR 2 eA ey (Some [qz 1; qz (-1)]) ed)) = 0%Qc /\
+  cl_kold QcF (cgls_iter QcF absR 2 eA 1 (cgls_setup QcF absR 2 eA ey (Some [qz 1; qz (-1)]) ed)) <> 0%Qc.
 Proof. split; [repeat constructor|]. split; [reflexivity|]. split; [reflexivity|]. split; [exact absR_dot|].
-  split; [intros v E; inversion E; reflexivity|]. split; [reflexivity|]. split; [exact I|]. split; [vm_compute; reflexivity|].
+  split; [intros v E; inversion E; reflexivity|].
   split; [apply Qc_eq_bool_correct; vm_compute; reflexivity|]. apply neqb_neq. vm_compute. reflexivity. Qed.
 
 Lemma example_hyps10 :
@@ -100,7 +91,7 @@ Proof. destruct example_hyps as (W & L & _ & H & X & _). repeat split; auto; app
 
 (* a state satisfying the hypotheses of cgls_step_descent (CGLSMono.v): the setup state of the example *)
 Lemma example_descent_hyps :
-  let st := cgls_setup QcF absR 2 eA true ey (Some [qz 1; qz (-1)]) ed in
+  let st := cgls_setup QcF absR 2 eA ey (Some [qz 1; qz (-1)]) ed in
   dot QcF (cl_c QcF st) (cl_r QcF st) = cl_kold QcF st /\
   (dot QcF (cl_q QcF st) (cl_q QcF st) + ed * ed * dot QcF (cl_c QcF st) (cl_c QcF st))%Qc <> 0%Qc.
 Proof. split; [apply Qc_eq_bool_correct; vm_compute; reflexivity | apply neqb_neq; vm_compute; reflexivity]. Qed.
